@@ -70,6 +70,9 @@ func run(c *Ctx) {
 	flushRecv(c)
 	genSdp(c)
 	streamLevel(c)
+	if d.Stopped {
+		c.Note("stopped after a hang of the implementation: the remaining cases were not run")
+	}
 }
 
 // ---------------------------------------------------------------- pipeline
